@@ -56,6 +56,15 @@ def e2_job(ctx, name, module, script, opts=(), harness_kw=None, backends=('z3',)
     if files is None:
         return {'pre_violation': True, 'name': name, 'desc': 'translator fails on a valid module: ' + err, 'dir': d,
                 'group': group or name}
+    # external data-segment modes (-d gnu-ld): the linker would provide _binary_datasegments_start from the emitted
+    # 'datasegments' file; here the same bytes are supplied as a C array so that the emitted code can be linked
+    blob = os.path.join(d, 'datasegments')
+    if os.path.exists(blob):
+        data = open(blob, 'rb').read()
+        with open(os.path.join(d, 'dsblob.c'), 'w') as f:
+            f.write('#include "w2c2_base.h"\nU8 _binary_datasegments_start[%d] = {%s};\n' % (max(1, len(data)), ','.join(str(b) for b in data) or '0'))
+        if 'dsblob.c' not in files:
+            files.append('dsblob.c')
     hk = dict(harness_kw or {})
     if '-m' in opts:
         hk['prefix'] = True
